@@ -14,7 +14,7 @@
 
    Contexts: `n` is the indentation of the enclosing block collection (-1 at top level): nested
    block content must be indented more than n; `d` bounds the nesting depth.                   *)
-EXTENDS Naturals, Integers, Sequences
+EXTENDS Naturals, Integers, Sequences, YRenderScalar, YRenderBlock
 
 Cell(t, i) == IF i <= Len(t) THEN t[i] ELSE 0
 Spaces(n) == [k \in 1..n |-> " "]
@@ -71,6 +71,37 @@ Props(t, st, allow) ==
      ELSE [txt |-> <<>>, aid |-> 0, tag |-> <<>>, st |-> st1]
 \* after the node carrying anchor `aid` is complete it may be the target of an alias
 Done(st, aid) == IF aid > 0 THEN [st EXCEPT !.av = Append(@, aid)] ELSE st
+
+\* ---- scalars that span lines, as the value after "-" or "key:" (cursor right after the indicator; the parent's
+\*      entries are at column n). Block scalars come from YRenderBlock, multi-line flow scalars from YRenderScalar ----
+BLinePool == << Ln(<<"t", "x">>, "text", 0), Ln(<<"#", " ", "n", "o">>, "text", 0), Ln(<<"-", " ", "e">>, "text", 0), Ln(<<"k", ":", " ", "v">>, "text", 0),
+               Ln(<<" ", "m">>, "more", 0), Ln(<<>>, "empty", 0), Ln(<<"l", "a", "s", "t">>, "text", 0) >>
+BLines(t, i, cnt) == [j \in 1..cnt |-> BLinePool[(Cell(t, i + j - 1) % Len(BLinePool)) + 1]]
+BlockLeaf(t, st, n) ==
+  LET pr == Props(t, st, TRUE)
+      i == pr.st.i
+      literal == (Cell(t, i) % 2) = 0
+      chomp == <<"clip", "strip", "keep">>[((Cell(t, i) \div 2) % 3) + 1]
+      cnt == (Cell(t, i + 1) % 3) + 1
+      ls0 == BLines(t, i + 2, cnt)
+      \* keep it unambiguous: the first line is a content line that does not start with a blank (no indentation indicator needed)
+      ls == IF IsEmpty(ls0[1]) \/ IsMore(ls0[1]) THEN <<Ln(<<"f">>, "text", 0)>> \o ls0 ELSE ls0
+      extra == Cell(t, i + 2 + cnt) % 3
+      indent == n + 1 + extra
+      comment == (Cell(t, i + 3 + cnt) % 4) = 3
+      txt == <<" ">> \o pr.txt \o Header(literal, chomp, 0, 0, comment) \o <<"\n">> \o LinesText(ls, 1, indent, TRUE)
+  IN R(txt, <<E("Scalar", BlockValue(ls, literal, chomp), IF literal THEN "literal" ELSE "folded", pr.aid, pr.tag)>>, Done(Adv(pr.st, 4 + cnt), pr.aid))
+MLPool == << <<"w", " ", "x">>, <<"w", "\n", "x">>, <<"w", " ", "x", " ", "y">>, <<"w", "\n", "\n", "x">>, <<"w", ":", "x", " ", "y">> >>
+MultiLeaf(t, st, n) ==
+  LET pr == Props(t, st, TRUE)
+      i == pr.st.i
+      tg == MLPool[(Cell(t, i) % Len(MLPool)) + 1]
+      style == <<"plain", "single", "double">>[(Cell(t, i + 1) % 3) + 1]
+      ch == [j \in 1..Len(tg) |-> IF tg[j] = " " THEN 1 ELSE 0]            \* every foldable space is written as a line break
+      eb == [j \in 1..Len(tg) |-> 0]
+      ctx == [name |-> "value", key |-> FALSE, flow |-> FALSE, n |-> n]
+      pres == Present(tg, style, ch, eb, ctx, Cell(t, i + 2) % 2, Cell(t, i + 3) % 2)
+  IN R(<<" ">> \o pr.txt \o pres \o Eol(Cell(t, i + 4)), <<E("Scalar", tg, style, pr.aid, pr.tag)>>, Done(Adv(pr.st, 5), pr.aid))
 
 RECURSIVE FlowNode(_, _, _, _), FlowSeqItems(_, _, _, _, _, _), FlowMapItems(_, _, _, _, _, _),
           BlockSeq(_, _, _, _, _, _), BlockMap(_, _, _, _, _, _), AfterDash(_, _, _, _), AfterColon(_, _, _, _), KeyNode(_, _, _, _)
@@ -174,6 +205,8 @@ AfterDash(t, st, n, d) ==
   THEN LET pr == Props(t, st1, TRUE) IN
        IF pr.txt = <<>> THEN R(Eol(0), <<Null>>, pr.st)
        ELSE R(<<" ">> \o SubSeq(pr.txt, 1, Len(pr.txt) - 1) \o Eol(Cell(t, pr.st.i)), <<E("Scalar", <<>>, "plain", pr.aid, pr.tag)>>, Done(Adv(pr.st, 1), pr.aid))
+  ELSE IF c = 13 THEN BlockLeaf(t, st1, n)      \* block scalar
+  ELSE IF c = 14 THEN MultiLeaf(t, st1, n)      \* flow scalar continued over several lines
   ELSE                               \* scalar on the next line, indented deeper
        LET m == n + 1 + (Cell(t, st1.i) % 3) r == PScalar(t, Adv(st1, 1)) IN
        R(<<"\n">> \o Spaces(m) \o r.txt \o Eol(Cell(t, r.i)), r.evs, Adv(StOf(r), 1))
@@ -202,6 +235,8 @@ AfterColon(t, st, n, d) ==
   THEN LET pr == Props(t, st1, TRUE) IN
        IF pr.txt = <<>> THEN R(Eol(0), <<Null>>, pr.st)
        ELSE R(<<" ">> \o SubSeq(pr.txt, 1, Len(pr.txt) - 1) \o Eol(Cell(t, pr.st.i)), <<E("Scalar", <<>>, "plain", pr.aid, pr.tag)>>, Done(Adv(pr.st, 1), pr.aid))
+  ELSE IF c = 13 THEN BlockLeaf(t, st1, n)
+  ELSE IF c = 14 THEN MultiLeaf(t, st1, n)
   ELSE LET m == n + 1 + (Cell(t, st1.i) % 3) r == PScalar(t, Adv(st1, 1)) IN
        R(<<"\n">> \o Spaces(m) \o r.txt \o Eol(Cell(t, r.i)), r.evs, Adv(StOf(r), 1))
 
